@@ -2,6 +2,7 @@
 # revert_fixes.sh : for every fixed finding, revert its fix: commit in /repo's working tree (uncommitted), run the
 # property's quick check, expect exit 1, and restore the tree. Natural "seeded changes": each pre-fix state passes
 # the existing test suite by construction.
+export VERIF_EVIDENCE_DIR=/verif/out/experiment-evidence   # never overwrite the committed evidence from a modified tree
 cd /repo || exit 2
 git status --porcelain | grep -v '^??' | grep . && { echo "/repo not clean"; exit 2; }
 python3 - <<'PY' > /tmp/fixlist.txt
